@@ -110,7 +110,7 @@ def build_unit(unit, scratch):
     cfg_path = os.path.join(udir, "unit.json")
     cfg = json.load(open(cfg_path)) if os.path.exists(cfg_path) else {}
     try:
-        segs = splice.parse_unit(open(tpl, encoding="utf-8").read(), tpl)
+        segs = splice.parse_unit(splice.expand_includes(open(tpl, encoding="utf-8").read(), VERIF), tpl)
     except (OSError, splice.SpliceError) as e:
         raise UnitError("template %s: %s" % (unit, e))
     out_lines = []
@@ -118,10 +118,19 @@ def build_unit(unit, scratch):
     b.unit, b.regions, b.log, b.functions, b.origin = unit, [], [], [], []
     b.cfg = cfg
 
+    cur_prelude = [None]
+
     def add(text, origin):
         for ln in text.split("\n"):
+            m = re.match(r"^//!prelude-begin (\S+)", ln)
+            if m:
+                cur_prelude[0] = m.group(1)
+                ln = "// ---- begin " + m.group(1)
+            elif ln.startswith("//!prelude-end"):
+                cur_prelude[0] = None
+                ln = "// ---- end include"
             out_lines.append(ln)
-            b.origin.append(origin)
+            b.origin.append(("prelude", cur_prelude[0]) if (cur_prelude[0] and origin[0] == "vocab") else origin)
 
     for seg in segs:
         if seg[0] == "text":
